@@ -604,7 +604,7 @@ def resolve(text, assembler):
 
 # ------------------------------------------------------------------ one program -> cases
 def has_data(prog):
-    return any(ln['l'] == 'data' for ln in prog)
+    return any(ln['l'] == 'data' or (ln['l'] == 'if' and 'data' in (ln['yes']['l'], ln['no']['l'])) for ln in prog)
 
 
 def observe(prog, key, gen, wd, idx, rnd, modes, vectors, html_too=True, probe=0, base=BASE, text=None):
